@@ -11,7 +11,8 @@
 (* Execute makes the instance swap contributions with every higher id),    *)
 (* then Commit to all in parallel.  At most MaxFaults messages are         *)
 (* faulted.  Design mutants: VerifyShare, CheckVVecLen, CommitNeedsAll,    *)
-(* ThresholdMode.                                                          *)
+(* ThresholdMode, StoreErrChecked.  acct[p] means: p holds THE account of  *)
+(* this generation (an older account of the same name is OldHolders).      *)
 (***************************************************************************)
 EXTENDS Integers, Sequences, FiniteSets, TLC
 
@@ -22,7 +23,11 @@ CONSTANTS N,              \* number of participants (ids 1..N)
           CheckVVecLen,   \* FALSE: vectors of the wrong length are accepted (pre-fix)
           CommitNeedsAll, \* FALSE: commit proceeds without every participant's contribution
           ConfirmAll,     \* FALSE: only the first T participants' confirmation signatures are verified by the initiator
-          ThresholdMode   \* "gtHalf" (shipped: n/2 < t <= n) | "geHalf" | "any"
+          ThresholdMode,  \* "gtHalf" (shipped: n/2 < t <= n) | "geHalf" | "any"
+          Initiator,      \* the participant the client asks
+          OldCandidates,  \* participants that MAY already hold an account of the requested name (from an earlier generation among other
+                          \* instances of a larger cluster); which of them do is chosen in Init (variable old)
+          StoreErrChecked \* FALSE: a participant whose account store fails during commit only logs the failure and confirms all the same
 
 P == 1 .. N
 \* fault kinds on a contribution: [consistent, dlen]  (dlen = vector length minus threshold)
@@ -50,8 +55,11 @@ VARIABLES phase,     \* "check" "prepare" "execute" "commit" "ok" "failed"
           byz,       \* participants whose commit reply carries a confirmation signature NOT made with a share consistent with
                      \* the composite key (a faulty participant: everything it signs later is made with that other key too)
           nfaults,
-          fault      \* the faults applied so far (set of names), for the properties
-vars == <<phase, k, sess, got, badlen, acct, crashed, committed, commitErr, byz, nfaults, fault>>
+          fault,     \* the faults applied so far (set of names), for the properties
+          old        \* participants that hold an OLDER account of the requested name: the initiator refuses at once if it is one
+                     \* of them; any other one cannot store the new account when the commit arrives (constant over a behaviour)
+vars == <<phase, k, sess, got, badlen, acct, crashed, committed, commitErr, byz, nfaults, fault, old>>
+OldHolders == old
 
 ThresholdOK == CASE ThresholdMode = "gtHalf" -> 2 * T > N /\ T <= N
                  [] ThresholdMode = "geHalf" -> 2 * T >= N /\ T <= N
@@ -61,10 +69,11 @@ Init == /\ phase = "check" /\ k = 1
         /\ sess = [p \in P |-> FALSE] /\ got = [p \in P |-> {}] /\ badlen = [p \in P |-> FALSE]
         /\ acct = [p \in P |-> FALSE] /\ crashed = [p \in P |-> FALSE]
         /\ committed = {} /\ commitErr = FALSE /\ byz = {} /\ nfaults = 0 /\ fault = {}
+        /\ old \in SUBSET OldCandidates
 
 Check == /\ phase = "check"
-         /\ phase' = IF ThresholdOK THEN "prepare" ELSE "failed"
-         /\ UNCHANGED <<k, sess, got, badlen, acct, crashed, committed, commitErr, byz, nfaults, fault>>
+         /\ phase' = IF ThresholdOK /\ Initiator \notin OldHolders THEN "prepare" ELSE "failed"
+         /\ UNCHANGED <<k, sess, got, badlen, acct, crashed, committed, commitErr, byz, nfaults, fault, old>>
 
 CanFault == nfaults < MaxFaults
 Fail == phase' = "failed"
@@ -83,7 +92,7 @@ Prepare == /\ phase = "prepare"
                       /\ sess' = IF f = "errreply" THEN [sess EXCEPT ![k] = TRUE] ELSE sess
                       /\ got' = IF f = "errreply" THEN [got EXCEPT ![k] = {k}] ELSE got
                  /\ nfaults' = nfaults + 1 /\ Fail /\ UNCHANGED k
-           /\ UNCHANGED <<badlen, acct, crashed, committed, commitErr, byz>>
+           /\ UNCHANGED <<badlen, acct, crashed, committed, commitErr, byz, old>>
 
 \* acceptance of a contribution c by the receiving side
 Accepts(c) == (VerifyShare => c.consistent) /\ (CheckVVecLen => c.dlen = 0)
@@ -117,7 +126,7 @@ Execute ==
              \/ Fail /\ UNCHANGED <<k, got, badlen>>
        \/ /\ CanFault /\ \E f \in MsgFaults : fault' = fault \cup {"execute-" \o f}
           /\ nfaults' = nfaults + 1 /\ Fail /\ UNCHANGED <<k, got, badlen>>
-    /\ UNCHANGED <<sess, acct, crashed, committed, commitErr, byz>>
+    /\ UNCHANGED <<sess, acct, crashed, committed, commitErr, byz, old>>
 
 \* commits are sent in parallel: handled in any order; the client outcome is known when all have returned
 Commit(p) ==
@@ -127,17 +136,19 @@ Commit(p) ==
          THEN commitErr' = TRUE /\ UNCHANGED <<acct, crashed, sess>>
          ELSE IF badlen[p]
                 THEN crashed' = [crashed EXCEPT ![p] = TRUE] /\ commitErr' = TRUE /\ UNCHANGED <<acct, sess>>
+                ELSE IF p \in OldHolders    \* the wallet refuses a second account of that name: the old one stays
+                THEN commitErr' = (commitErr \/ StoreErrChecked) /\ UNCHANGED <<acct, crashed, sess>>
                 ELSE acct' = [acct EXCEPT ![p] = TRUE] /\ sess' = [sess EXCEPT ![p] = FALSE] /\ UNCHANGED <<crashed, commitErr>>
     /\ \/ UNCHANGED <<byz, nfaults, fault>>
        \/ /\ CanFault /\ byz' = byz \cup {p} /\ nfaults' = nfaults + 1 /\ fault' = fault \cup {"commit-byzsig"}
-    /\ UNCHANGED <<phase, k, got, badlen>>
+    /\ UNCHANGED <<phase, k, got, badlen, old>>
 
 \* the initiator recovers a composite signature from the confirmation signatures: every window of T consecutive participants
 \* (ConfirmAll) - so every participant's signature takes part - or, in the broken design, the first window only
 Verified == IF ConfirmAll THEN P ELSE 1 .. T
 Finish == /\ phase = "commit" /\ committed = P
           /\ phase' = IF commitErr \/ (byz \cap Verified # {}) THEN "failed" ELSE "ok"
-          /\ UNCHANGED <<k, sess, got, badlen, acct, crashed, committed, commitErr, byz, nfaults, fault>>
+          /\ UNCHANGED <<k, sess, got, badlen, acct, crashed, committed, commitErr, byz, nfaults, fault, old>>
 
 Done == phase \in {"ok", "failed"} /\ UNCHANGED vars
 Next == Check \/ Prepare \/ Execute \/ (\E p \in P : Commit(p)) \/ Finish \/ Done
@@ -154,5 +165,5 @@ FaultNoAccount == /\ (fault \ Dups # {}) => phase # "ok"
                   /\ (fault \ (Dups \cup {"commit-byzsig"}) # {}) => \A p \in P : ~acct[p] /\ ~crashed[p]
                   /\ \A p \in P : (fault \subseteq Dups) => ~crashed[p]
 \* a refused threshold creates nothing
-RefusedCreatesNothing == (phase = "failed" /\ ~ThresholdOK) => \A p \in P : ~acct[p] /\ ~sess[p]
+RefusedCreatesNothing == (phase = "failed" /\ (~ThresholdOK \/ Initiator \in OldHolders)) => \A p \in P : ~acct[p] /\ ~sess[p]
 =============================================================================
